@@ -23,14 +23,13 @@ if [ -n "$DEMO" ]; then
   (bash $DEMO >/dev/null 2>&1; echo "demo exit $?") >> $LOG
   git apply seed/patch.diff
 fi
-cd /repo && git apply $D/patch.diff || { echo "patch does not apply to /repo" >> $LOG; exit 1; }
+git -C /repo apply --check $D/patch.diff || { echo "patch does not apply to /repo" >> $LOG; exit 1; }
 cd /verif
-echo "== ./check $P --tier quick on /repo with the change" >> $LOG
+echo "== ./check $P --tier quick on the worktree with the change (UCG_REPO=$WT; /repo itself stays untouched)" >> $LOG
 # the evidence file and replays of the unchanged tree must not be overwritten by a run on a mutated tree
 cp evidence/$P.json /tmp/evidence-$P.keep 2>/dev/null
-./check $P --tier quick > $D/check_output.txt 2>&1; echo "check exit $?" >> $LOG
+UCG_REPO=$WT ./check $P --tier quick > $D/check_output.txt 2>&1; echo "check exit $?" >> $LOG
 cp evidence/$P.json $D/evidence_with_change.json 2>/dev/null
 [ -f /tmp/evidence-$P.keep ] && mv /tmp/evidence-$P.keep evidence/$P.json
 grep -E 'VIOLATION|OK property|INCONCLUSIVE' $D/check_output.txt | head -5 >> $LOG
-cd /repo && git checkout -- . && git status --short | head -3 >> $LOG
 cat $LOG
